@@ -203,6 +203,7 @@ int main() {
         if (c.lines.empty() || c.lines[0].size() < 2) { emit({PRE}); return; }
         emit({});
         if (c.lines[0][0] != 0) Runner<Tracked>().run(c);
+        else if (c.lines[0].size() > 2 && c.lines[0][2] == 1) Runner<double>().run(c);
         else Runner<int64_t>().run(c);
     });
 }
